@@ -411,12 +411,19 @@ def resolveName (c : ECtx) (n : Str) : EM Val :=
       else if c.pyBuiltins.contains ns then emUnsupported "python builtin outside the subset"
       else emRaise "NameError" n
 
-def roman (n : Nat) : Str :=
-  let tbl : List (Nat × String) := [(1000, "M"), (900, "CM"), (500, "D"), (400, "CD"), (100, "C"), (90, "XC"),
-    (50, "L"), (40, "XL"), (10, "X"), (9, "IX"), (5, "V"), (4, "IV"), (1, "I")]
-  (tbl.foldl (fun (acc : Str × Nat) (v, r) =>
-    let cnt := acc.2 / v
-    (acc.1 ++ (List.replicate cnt (Str.ofString r)).flatten, acc.2 % v)) ([], n)).1
+def romanTable : List (Nat × String) :=
+  [(1000, "M"), (900, "CM"), (500, "D"), (400, "CD"), (100, "C"), (90, "XC"),
+   (50, "L"), (40, "XL"), (10, "X"), (9, "IX"), (5, "V"), (4, "IV"), (1, "I")]
+
+/-- `for v, r in rnvalues: rct, n = divmod(n, v); s = s + r * rct` as a list of (count, value, numeral) -/
+def romanDecomp : List (Nat × String) → Nat → List (Nat × Nat × String)
+  | [], _ => []
+  | (v, r) :: tbl, n => (n / v, v, r) :: romanDecomp tbl (n % v)
+
+def romanWith (tbl : List (Nat × String)) (n : Nat) : Str :=
+  ((romanDecomp tbl n).map (fun (c, _, r) => (List.replicate c (Str.ofString r)).flatten)).flatten
+
+def roman (n : Nat) : Str := romanWith romanTable n
 
 /-- `_letter`: repeated divmod by 26, most significant first -/
 def letterFrom (base : Nat) : Nat → Nat → Str → Str
